@@ -167,7 +167,11 @@ func (tree *ParserT) parseStatement(exec bool) error {
 					}
 				} else {
 					if len(tree.statement.paramTemp) > 0 {
-						tree.statement.paramTemp = tree.statement.paramTemp[:len(tree.statement.paramTemp)-2]
+						trim := len(tree.statement.paramTemp) - 2
+						if trim < 0 {
+							trim = 0
+						}
+						tree.statement.paramTemp = tree.statement.paramTemp[:trim]
 						if err := tree.nextParameter(); err != nil {
 							return err
 						}
@@ -226,7 +230,11 @@ func (tree *ParserT) parseStatement(exec bool) error {
 					}
 				} else {
 					if len(tree.statement.paramTemp) > 0 {
-						tree.statement.paramTemp = tree.statement.paramTemp[:len(tree.statement.paramTemp)-2]
+						trim := len(tree.statement.paramTemp) - 2
+						if trim < 0 {
+							trim = 0
+						}
+						tree.statement.paramTemp = tree.statement.paramTemp[:trim]
 						if err := tree.nextParameter(); err != nil {
 							return err
 						}
